@@ -303,6 +303,19 @@ func c20Calls(r *fw.Rand, n int) []c20Call {
 			}
 			return res.DIDDocument.ID
 		}})
+		// ... one more with both keys on secp256k1 (the library's own JWK encoder, not the JOSE library's) and a document of its own
+		{
+			doc2, _, _ := c17Doc(r)
+			uk2, rk2 := gen.NewKey(r, gen.Secp256k1), gen.NewKey(r, gen.Secp256k1)
+			calls = append(calls, c20Call{"vdr", func(e *c20Env, keep keepFn) string {
+				cp := *doc2
+				res, err := e.vdr.Create(&cp, vdrapi.WithOption(sidetreelongform.UpdatePublicKeyOpt, uk2.Public()), vdrapi.WithOption(sidetreelongform.RecoveryPublicKeyOpt, rk2.Public()))
+				if err != nil {
+					return resStr(nil, err)
+				}
+				return res.DIDDocument.ID
+			}})
+		}
 		// ... and with the keys left to the VDR (it draws them itself: the DID differs from call to call, so the call reports only
 		// whether what it got resolves to itself)
 		if r.Chance(1, 2) {
